@@ -1083,6 +1083,88 @@ struct Gen {
                 op(OP_DRAIN);
         }
 
+        // C14, enumerated part: one holding line; the release request is placed after exactly k service calls, for every
+        // k (before the hold exists, while it is entered, during it); variants also release through an event handler
+        void gen_ops_c14_enum(uint64_t variant)
+        {
+                // a command whose run handler holds at once, reachable by an unambiguous name
+                CmdSpec c;
+                c.name = "+HLD";
+                c.h[K_RUN] = true;
+                Step st;
+                st.code = RC_HOLD;
+                c.script[K_RUN].push_back(st);
+                c.group = 0;
+                for (auto &o : p.cmds)
+                        if (upper(o.name).compare(0, 4, "+HLD") == 0 || o.implicit)
+                                o.disable = true;
+                p.cmds.push_back(c);
+                p.groups[0].disable = false;
+                if ((p.registered_count() + 3) / 4 > p.cmd_cap())
+                        p.buf_size += p.shared ? 2 : 1;
+                // an event source whose handler releases the hold
+                CmdSpec e;
+                e.ev = 1;
+                e.registered = false;
+                e.name = "%REL";
+                e.h[K_READ] = true;
+                Step es;
+                es.code = r.coin() ? RC_HOLD_EXIT_OK : RC_HOLD_EXIT_ERROR;
+                e.script[K_READ].push_back(es);
+                p.cmds.push_back(e);
+                int evidx = (int)p.cmds.size() - 1;
+                ms.init(p);
+                bool by_event = r.chance(0.3);
+                bool twice = r.chance(0.3);
+                bytes next = r.coin() ? gen_line() : bytes();
+                int status = (int)r.below(2);
+                bool crlf = r.coin();
+                if (r.chance(0.4))
+                        faults_maybe();
+                in_op(std::string("AT+HLD") + (crlf ? "\r\n" : "\n") + next);
+                op(OP_SVC, (int64_t)variant);
+                if (by_event)
+                        op(OP_TRIG, evidx, CT_READ);
+                else
+                        op(OP_HEXIT, status);
+                if (twice) {
+                        op(OP_SVC, r.range(0, 3));
+                        op(OP_HEXIT, 1 - status);
+                }
+                op(OP_SVC, r.range(0, 40));
+                op(OP_DRAIN);
+        }
+
+        // C18, enumerated part: one or two lines, cut at every byte position k; everything settles between the two parts,
+        // the observer samples cat_is_busy / cat_is_hold after every service call
+        void gen_ops_c18_enum(uint64_t variant)
+        {
+                std::vector<int> evs;
+                for (size_t i = 0; i < p.cmds.size(); i++)
+                        if (p.cmds[i].ev)
+                                evs.push_back((int)i);
+                p.observe = true;
+                bytes text = gen_line();
+                if (r.coin())
+                        text += gen_line();
+                bool ev_first = !evs.empty() && r.coin();
+                int ev = evs.empty() ? 0 : evs[r.below(evs.size())];
+                if (r.chance(0.4))
+                        faults_maybe();
+                size_t k = (size_t)variant;
+                if (k > text.size())
+                        k = text.size();
+                if (ev_first)
+                        op(OP_TRIG, ev, r.coin() ? CT_READ : CT_TEST);
+                if (k > 0)
+                        in_op(text.substr(0, k));
+                op(OP_SVCQ, 200000);
+                op(OP_SVC, 2);
+                if (k < text.size())
+                        in_op(text.substr(k));
+                op(OP_DRAIN);
+        }
+
         // ------------------------------------------------------------ C20: whole lines, holds released at once
         void gen_ops_c20()
         {
@@ -1452,7 +1534,7 @@ void knobs_for(const std::string &prop, Knobs &K, Rng &r)
 
 bool g_gen_thorough = false;
 
-uint64_t gen_enum_count(const std::string &prop) { return prop == "C10" ? 63 * 10 * 6 : prop == "C12" ? 256 * 100 : 0; }
+uint64_t gen_enum_count(const std::string &prop) { return prop == "C10" ? 63 * 10 * 6 : prop == "C12" ? 256 * 100 : prop == "C14" ? 128 * 100 : prop == "C18" ? 64 * 200 : 0; }
 
 Plan gen_plan(const std::string &prop, uint64_t seed, uint64_t idx, int qcap)
 {
@@ -1462,7 +1544,10 @@ Plan gen_plan(const std::string &prop, uint64_t seed, uint64_t idx, int qcap)
                 ph = (ph ^ (unsigned char)ch) * 1099511628211ULL;
         // C12: the first C12_ENUM indices enumerate single faults over base plans (256 variants per base plan)
         bool c12e = prop == "C12" && idx < gen_enum_count(prop);
-        Gen g(mix_seed(seed ^ ph, (c12e ? (idx / 256) + (1ULL << 40) : idx) * 2654435761ULL + 17));
+        bool c14e = prop == "C14" && idx < gen_enum_count(prop);
+        bool c18e = prop == "C18" && idx < gen_enum_count(prop);
+        uint64_t base = c12e ? idx / 256 : c14e ? idx / 128 : c18e ? idx / 64 : 0;
+        Gen g(mix_seed(seed ^ ph, ((c12e || c14e || c18e) ? base + (1ULL << 40) : idx) * 2654435761ULL + 17));
         knobs_for(prop, g.K, g.r);
         if (g_gen_thorough && prop != "C16" && prop != "C17") {
                 // deeper, not only more: longer line/event histories, larger tables, more phases
@@ -1483,6 +1568,10 @@ Plan gen_plan(const std::string &prop, uint64_t seed, uint64_t idx, int qcap)
                 g.gen_world(qcap);
                 if (c12e)
                         g.gen_ops_c12_enum(idx % 256);
+                else if (c14e)
+                        g.gen_ops_c14_enum(idx % 128);
+                else if (c18e)
+                        g.gen_ops_c18_enum(idx % 64);
                 else if (prop == "C12")
                         g.gen_ops_c12();
                 else if (prop == "C20")
